@@ -23,8 +23,8 @@ Proof. intros i pre. split; [apply counter_only_increments|apply counter_only_ab
 
 Theorem C07_gauge_value : forall i pre v post, forallb (gauge_quiet i) post = true ->
   spec_gauge i (pre ++ GSet i v :: post) = v
-  /\ spec_gauge i (pre ++ GInc i v :: post) = (spec_gauge i pre + v)%Z
-  /\ spec_gauge i (pre ++ GDec i v :: post) = (spec_gauge i pre - v)%Z
+  /\ spec_gauge i (pre ++ GInc i v :: post) = xadd (spec_gauge i pre) v
+  /\ spec_gauge i (pre ++ GDec i v :: post) = xadd (spec_gauge i pre) (xneg v)
   /\ spec_gauge i (pre ++ post) = spec_gauge i pre.
 Proof. exact gauge_value. Qed.
 
@@ -33,12 +33,12 @@ Theorem C07_every_sample_once : forall c, wf_names c = true ->
   (let s := fst (run c init h) in
    let e := aget parts_eqb (parts c k) (dists s) in
    N.of_nat (List.length (records i h)) = dist_count e + N.of_nat (List.length (dflt (aget N.eqb i (pend s)) []))
-   /\ zsum (records i h) = (dist_sum e + zsum (dflt (aget N.eqb i (pend s)) []))%Z)
+   /\ xsum (records i h) = xadd (dist_sum e) (xsum (dflt (aget N.eqb i (pend s)) [])))
   /\ (forall o, o = Render \/ o = Upkeep -> registered i k h = true ->
       let s := fst (run c init (h ++ [o])) in
       let e := aget parts_eqb (parts c k) (dists s) in
       aget N.eqb i (pend s) = Some [] /\
-      dist_count e = N.of_nat (List.length (records i h)) /\ dist_sum e = zsum (records i h)).
+      dist_count e = N.of_nat (List.length (records i h)) /\ dist_sum e = xsum (records i h)).
 Proof.
   intros c wf h i k Hi Hk. split; [apply every_sample_once; auto|].
   intros o Ho Hr. apply drained_count; auto.
@@ -49,6 +49,22 @@ Theorem C07_sum_once : forall (F : Type) (fadd : F -> F -> F) (fzero : F),
   forall ops, let st := fold_left (astep F fadd fzero) ops ([], fzero) in
   fadd (snd st) (fsum F fadd fzero (fst st)) = fsum F fadd fzero (arecorded F ops).
 Proof. exact sum_once. Qed.
+
+(* samples, sums and gauge values range over exact quarter-unit numbers extended with +inf, -inf and NaN
+   ([xnum]: the exact finite part and how many of each special value went into the sum; [cls] is the double
+   it denotes).  Componentwise addition is a commutative monoid, it is IEEE addition on the classes ([cadd]:
+   NaN absorbs, inf + -inf = NaN, inf + finite = inf, finite + finite exact), so C07_sum_once applies to
+   sums containing special values, and the model's _sum / gauge value is shown as that class. *)
+Theorem C07_sum_once_with_special_values :
+  (forall a b c, xadd a (xadd b c) = xadd (xadd a b) c) /\ (forall a b, xadd a b = xadd b a) /\ (forall a, xadd xzero a = a)
+  /\ (forall a b, cls (xadd a b) = cadd (cls a) (cls b))
+  /\ (forall a, cls (xneg a) = match cls a with CNaN => CNaN | CPInf => CNInf | CNInf => CPInf | CFin z => CFin (- z) end)
+  /\ (forall ops, let st := fold_left (astep xnum xadd xzero) ops ([], xzero) in
+      xadd (snd st) (fsum xnum xadd xzero (fst st)) = fsum xnum xadd xzero (arecorded xnum ops)).
+Proof.
+  split; [exact xadd_assoc|]. split; [exact xadd_comm|]. split; [exact xadd_zero_l|]. split; [exact cls_xadd|].
+  split; [exact cls_xneg|exact sum_once_xnum].
+Qed.
 
 Theorem C07_labels_global_overridden_by_key : forall g kl,
   imap_of (g ++ kl) = spec_labels g kl /\ key_labels g kl = map label_string (spec_labels g kl).
@@ -91,8 +107,8 @@ Definition ex_case : case :=
       c_keys := [ {| k_kind := KH; k_name := [108; 45]; k_labels := [] |};
                   {| k_kind := KH; k_name := [108; 45]; k_labels := [([103], [50])] |};
                   {| k_kind := KC; k_name := [99]; k_labels := [] |} ] |},
-   [Rec 0 4%Z; Describe KC [108; 95] (Some Seconds) [104]; Upkeep; Rec 0 9%Z; Rec 1 1%Z; Inc 2 18446744073709551615;
-    Render; Inc 2 2; Describe KH [108; 45] None [120]; Rec 0 5%Z; Render; Render]).
+   [Rec 0 (xfin 4); Describe KC [108; 95] (Some Seconds) [104]; Upkeep; Rec 0 (xfin 9); Rec 1 (xfin 1); Inc 2 18446744073709551615;
+    Render; Inc 2 2; Describe KH [108; 45] None [120]; Rec 0 (xfin 5); Render; Render]).
 
 Theorem C07_example_nontrivial :
   wf_names (fst ex_case) = true
@@ -103,6 +119,23 @@ Theorem C07_example_nontrivial :
   /\ In {| a_fam := [99]; a_type := 0; a_help := None; a_name := [99]; a_labels := [[103; 61; 34; 49; 34]];
            a_extra := XNone; a_val := VInt 1 |} (last (run_case ex_case) []).
 Proof. vm_compute. repeat split; auto 20. Qed.
+
+(* special values through the accounting: finite samples 1.0 and 2.0 with a +inf sample give _count 3, buckets
+   1 / 2 / +Inf 3 and _sum +inf; a -inf and a NaN sample then give _count 5, every finite bucket one more (-inf
+   is <= every bound, NaN and +inf are in no finite bucket), _sum NaN; a gauge set to +inf, incremented, then
+   decremented by +inf reads +inf and then NaN *)
+Definition ex_special : case :=
+  ({| c_globals := []; c_unit_on := false; c_quantiles := [4602678819172646912];
+      c_buckets := Some [4; 8]%Z; c_overrides := [];
+      c_keys := [ {| k_kind := KH; k_name := [104]; k_labels := [] |}; {| k_kind := KG; k_name := [103]; k_labels := [] |} ] |},
+   [Rec 0 (xfin 4); Rec 0 xpinf; Rec 0 (xfin 8); GSet 1 xpinf; GInc 1 (xfin 5); Render;
+    Rec 0 xninf; Rec 0 xnan; GDec 1 xpinf; Render]).
+Theorem C07_example_special_values :
+  wf_names (fst ex_special) = true
+  /\ map (map (fun a => (a_extra a, a_val a))) (run_case ex_special)
+     = [ [(XLe 4, VInt 1); (XLe 8, VInt 2); (XInf, VInt 3); (XNone, VPInf); (XNone, VInt 3); (XNone, VPInf)];
+         [(XLe 4, VInt 2); (XLe 8, VInt 3); (XInf, VInt 5); (XNone, VNaN); (XNone, VInt 5); (XNone, VNaN)] ].
+Proof. vm_compute. split; reflexivity. Qed.
 
 (* ------------------------------------------------------------------------------------------------
    The concurrent clause: interleaving model of ConcModel.v (Common/Interleave.v).  [final ps sched] is
